@@ -300,6 +300,8 @@ pipelines:
       depends_on: [beforefails]
 `
 
+var cockpitFinished = regexp.MustCompile(`Finished \x1b\[1m(\w+)\x1b\[0m`)
+
 // several targets on one command line (one runner, one output layer): the outcome of one task must not disturb
 // the decoration of the next one; the exit status is that of the raw format
 func formatSequenceCase(col *Collector, dir string, format string, targets []string) {
@@ -327,6 +329,27 @@ func formatSequenceCase(col *Collector, dir string, format string, targets []str
 		}
 	}
 	cs.Impl = fmt.Sprintf("exit=%d", res.exit)
+	if format == "cockpit" && !strings.Contains(strings.Join(targets, " "), "mixed") {
+		// the "Finished" lines of the cockpit against the model: targets run one after the other; a task that never
+		// starts its output (skipped, failing before hook) is only removed
+		ids := map[string]int{"succeeds": 1, "fails": 2, "skipped": 3, "beforefails": 4, "allowed": 5, "coloured": 6, "inter": 7, "last": 8}
+		var acts, got []string
+		for _, t := range executed {
+			if t == "inter" {
+				continue // an interactive task is always shown raw: the cockpit never hears of it
+			}
+			if t == "skipped" || t == "beforefails" {
+				acts = append(acts, fmt.Sprintf("r%d", ids[t]))
+			} else {
+				acts = append(acts, fmt.Sprintf("a%d", ids[t]), fmt.Sprintf("r%d", ids[t]))
+			}
+		}
+		for _, m := range cockpitFinished.FindAllStringSubmatch(res.stdout, -1) {
+			got = append(got, fmt.Sprint(ids[m[1]]))
+		}
+		cs.Line = "cockpit " + strings.Join(acts, " ")
+		cs.Impl = "finished=" + strings.Join(got, ",")
+	}
 	switch {
 	case res.timedOut:
 		cs.Fail, cs.Sig = "did not finish within 30s", "c19-format-hang"
